@@ -252,6 +252,7 @@ func (br *bodyRun) callStatic(st *State, fn *ssa.Function, bindings []Val, argVa
 // of this function's closures and receives no function value and no pointer to a cell).
 func (br *bodyRun) havocInferred(st *State, keys map[string]string, callee *ssa.Function, args []Val, argVals []ssa.Value) {
 	fc := br.fc
+	defer fc.keepLocals(st)()
 	keepCells := true
 	if callee != nil && callee.Parent() != nil {
 		keepCells = false
@@ -592,10 +593,12 @@ func (br *bodyRun) applyContract(st *State, ct *Contract, key string, names []st
 					ks = append(ks, k)
 				}
 				sort.Strings(ks)
+				restore := fc.keepLocals(st)
 				for _, k := range ks {
 					fc.touched[k] = true
 					fc.havocKey(st, k, fr.keys[k])
 				}
+				restore()
 				if fr.locks {
 					fc.havocHeld(st)
 				}
@@ -855,6 +858,46 @@ func (br *bodyRun) userAsserts(b *ssa.BasicBlock, idx int, ins ssa.Instruction, 
 			}
 			k := br.siteOrdinal(ci, name)
 			match = ord == 0 || ord == k
+		case len(fs) == 3 && fs[1] == "assign":
+			// an assignment to the named source variable (registers only; a variable that lives
+			// in a cell is assigned by a store): "before assign x[#k]"; 'assigned' is the new value
+			name, ord := fs[2], 0
+			if j := strings.Index(name, "#"); j >= 0 {
+				fmt.Sscanf(name[j+1:], "%d", &ord)
+				name = name[:j]
+			}
+			if sto, isStore := ins.(*ssa.Store); isStore {
+				// a variable that lives in a cell: every store into it, in source order
+				if a, ok := sto.Addr.(*ssa.Alloc); ok && a.Comment == name {
+					var stores []*ssa.Store
+					for _, bb := range br.fn.Blocks {
+						for _, in2 := range bb.Instrs {
+							if s2, ok := in2.(*ssa.Store); ok && s2.Addr == a {
+								stores = append(stores, s2)
+							}
+						}
+					}
+					sort.SliceStable(stores, func(i, j int) bool { return stores[i].Pos() < stores[j].Pos() })
+					for k, s2 := range stores {
+						if s2 == sto && (ord == 0 || ord == k+1) {
+							match = true
+						}
+					}
+				}
+				if !match {
+					continue
+				}
+				break
+			}
+			dr, ok := ins.(*ssa.DebugRef)
+			if !ok {
+				continue
+			}
+			for k, s := range br.assignSites(name) {
+				if s == dr && (ord == 0 || ord == k+1) {
+					match = true
+				}
+			}
 		case len(fs) == 3 && fs[1] == "closure":
 			// the instruction that creates the closure assigned to the named local variable
 			if mc, ok := ins.(*ssa.MakeClosure); ok {
@@ -916,6 +959,20 @@ func (br *bodyRun) userAsserts(b *ssa.BasicBlock, idx int, ins ssa.Instruction, 
 						}
 					}
 				}
+			}
+		}
+		if sto, ok := ins.(*ssa.Store); ok {
+			if v, ok := fc.vals[sto.Val]; ok {
+				env.vars["assigned"] = TV{v, sto.Val.Type()}
+			} else if c, isConst := sto.Val.(*ssa.Const); isConst {
+				env.vars["assigned"] = TV{fc.constVal(c), sto.Val.Type()}
+			}
+		}
+		if dr, ok := ins.(*ssa.DebugRef); ok {
+			if v, ok := fc.vals[dr.X]; ok {
+				env.vars["assigned"] = TV{v, dr.X.Type()}
+			} else if c, isConst := dr.X.(*ssa.Const); isConst {
+				env.vars["assigned"] = TV{fc.constVal(c), dr.X.Type()}
 			}
 		}
 		if ret, ok := ins.(*ssa.Return); ok {
